@@ -41,6 +41,10 @@ EXPLANATION = (
     "NOT decided: the real-arithmetic part of the geometric grid (lengths of every interval), the greedy loop's invariant, "
     "monotonicity in the threshold (consequences)."
 )
+# obligations added during the build phase (seeding rounds, twins, mutation analysis)
+ADDED_IN_BUILD = " Also: the interval generator is decided for comprehensions or appends in an inner loop; its arguments are bound by NAME at the driver's call site and every role (n, min length, max length, growth factor) must receive the driver's own quantity (none left to a default)."
+EXPLANATION = EXPLANATION + ADDED_IN_BUILD
+
 ASSUMPTIONS = [
     "Python's ast module and evaluation-order/argument-binding semantics as implemented in skverif/symex.py",
     "library model table skverif/models.py (np.arange, np.geomspace(num) has num points from lo to hi, np.unique/np.round keep non-emptiness, np.argmax, boolean-mask stores)",
